@@ -316,3 +316,212 @@ def expand(paths_or_glob):
     if isinstance(paths_or_glob, str):
         return sorted(_glob.glob(paths_or_glob))
     return list(paths_or_glob)
+
+
+# --------------------------------------------------------------------------
+# round 4: names that look reserved, payload / index dtypes beyond int64 / float64 / str
+# --------------------------------------------------------------------------
+# Index (and column) NAMES a reader or writer might mistake for a placeholder: pandas' reset_index()
+# labels, pyarrow's / Dask's placeholder spellings that are NOT the placeholders, attribute names of a
+# frame, words that read like "no name", upper / lower case twins, separators, non-ASCII.  Left out on
+# purpose: '__null_dask_index__' and '__index_level_<i>__' themselves (the file format cannot tell them
+# from an unnamed index) and names that are not str (parquet field names are strings).
+RESERVED_NAMES = ['index', 'level_0', 'level_1', 'Index', 'INDEX', '_index', '__index__', 'index_0',
+                  'None', 'none', 'null', 'nan', 'NaN', '', ' ', '0', '-1',
+                  'geometry', 'columns', 'name', 'names', 'values', 'dtype', 'id', 'idx', 'key_0',
+                  'npartitions', 'divisions', 'partition', 'hilbert_distance', 'hilbert',
+                  '__null_index__', '__dask_index__', '__index_level__', '__index_level_x__',
+                  '__null_dask_index', 'null_dask_index', '_metadata', '_common_metadata',
+                  'a.b', 'a b', 'a/b', 'a,b', 'ixé', '索引']
+
+
+def _ns_values(rng, n, lo_year=1700, hi_year=2250):
+    """epoch nanoseconds that are NOT whole microseconds (every value has non-zero sub-microsecond
+    digits), distinct, inside datetime64[ns]'s range"""
+    lo = (lo_year - 1970) * 365 * 86400 * 10 ** 9
+    hi = (hi_year - 1970) * 365 * 86400 * 10 ** 9
+    out = set()
+    while len(out) < n:
+        v = rng.randrange(lo, hi)
+        if v % 1000 == 0:
+            v += rng.randrange(1, 1000)
+        out.add(v)
+    out = list(out)
+    rng.shuffle(out)
+    if n > 2:
+        out[0] = 1_700_000_000_123_456_789
+        out[2] = -1                                   # one nanosecond before the epoch
+    return out
+
+
+def _ints(rng, n, lo, hi):
+    """n distinct integers of [lo, hi] with both ends, 0 / +-1 and the neighbours of 2^53 where they fit"""
+    pool = [lo, hi, 0, 1, -1, 2 ** 53 + 1, -(2 ** 53) - 1, lo + 1, hi - 1, 2 ** 31, 2 ** 32 - 1, 2 ** 63]
+    vals = []
+    for v in pool:
+        if lo <= v <= hi and v not in vals:
+            vals.append(v)
+    rng.shuffle(vals)
+    vals = vals[:n]
+    while len(vals) < n:
+        v = rng.randint(lo, hi)
+        if v not in vals:
+            vals.append(v)
+    return vals
+
+
+def _floats(rng, n, dtype):
+    info = np.finfo(dtype)
+    pool = [0.1, -0.0, 0.0, float(info.max), float(info.tiny), float(info.smallest_subnormal),
+            -float(info.smallest_subnormal), 1.0 + float(info.eps), 2.0 ** 53 + 2, 1e-11, 123456.789e10,
+            float('inf'), float('-inf'), float('nan')]
+    rng.shuffle(pool)
+    vals = pool[:n]
+    while len(vals) < n:
+        vals.append(rng.uniform(-1e6, 1e6) * 10.0 ** rng.randint(-20, 20))
+    return np.array(vals, dtype='float64').astype(dtype)
+
+
+def _strs(rng, n):
+    pool = ['', ' ', 'a', 'A', 'None', 'nan', 'NULL', '0', 'x' * 300, 'café', '索引', 'tab\there',
+            'line\nbreak', 'quote"s', "it's", 'a,b', 'é' * 40, 'zero\x00byte']
+    rng.shuffle(pool)
+    vals = pool[:n]
+    while len(vals) < n:
+        vals.append(''.join(rng.choice('abcXYZ 01_é') for _ in range(rng.randint(1, 12))) + str(len(vals)))
+    return vals
+
+
+def _holes(rng, vals, p=0.3):
+    """some positions (at least one when there are two values) replaced by None"""
+    out = [None if rng.random() < p else v for v in vals]
+    if len(out) > 1 and all(v is not None for v in out):
+        out[rng.randrange(len(out))] = None
+    return out
+
+
+def typed_values(rng, key, n, role='col'):
+    """values of a non-geometry column (role 'col') or of an index (role 'index') of the dtype family
+    `key`.  Index values carry no missing entries (Dask refuses them) and are distinct where cheap."""
+    import pandas as pd
+    col = role == 'col'
+    if key.startswith('dt_ns') or key == 'dt_tz':
+        ns = np.array(_ns_values(rng, n), dtype='int64')
+        v = pd.to_datetime(ns, unit='ns')
+        if key == 'dt_tz':
+            v = v.tz_localize('UTC').tz_convert(rng.choice(['Europe/Berlin', 'UTC', 'Asia/Kolkata', 'America/St_Johns']))
+        if key == 'dt_ns_nat' and col and n > 1:
+            v = v.where(np.arange(n) != rng.randrange(n))
+        return v
+    if key in ('dt_us', 'dt_ms'):
+        unit = key[3:]
+        per = {'us': 10 ** 6, 'ms': 10 ** 3}[unit]
+        vals = _ints(rng, n, -8 * 10 ** 9 * per, 8 * 10 ** 9 * per)      # about +-250 years
+        return pd.to_datetime(np.array(vals, dtype='int64'), unit=unit)
+    if key in ('td_ns', 'td_us'):
+        unit = key[3:]
+        vals = _ints(rng, n, -(10 ** 15), 10 ** 15)
+        vals = [v if (unit != 'ns' or v % 1000) else v + 7 for v in vals]
+        return pd.to_timedelta(np.array(vals, dtype='int64'), unit=unit)
+    if key == 'bool':
+        v = [bool(rng.getrandbits(1)) for _ in range(n)]
+        if n > 1:
+            v[0], v[1] = True, False
+        return np.array(v, dtype='bool')
+    if key in ('int8', 'int16', 'int32', 'int64', 'uint8', 'uint16', 'uint32', 'uint64'):
+        ii = np.iinfo(key)
+        lo, hi = int(ii.min), int(ii.max)
+        if key == 'int64' and not col:
+            # Dask's own writer (plain dask frames too) fails on an int64 index that holds INT64_MIN or
+            # spans more than 2^63
+            lo, hi = -(2 ** 61), 2 ** 61
+        return np.array(_ints(rng, n, lo, hi), dtype=key)
+    if key in ('float16', 'float32', 'float64'):
+        return _floats(rng, n, key)
+    if key in ('Int64', 'UInt8', 'Int16'):
+        ii = np.iinfo(key.lower())
+        return pd.array(_holes(rng, _ints(rng, n, int(ii.min), int(ii.max))), dtype=key)
+    if key == 'Float64':
+        return pd.array(_holes(rng, [float(x) for x in _floats(rng, n, 'float64') if x == x] + [0.5] * n)[:n],
+                        dtype='Float64')
+    if key == 'boolean':
+        return pd.array(_holes(rng, [bool(rng.getrandbits(1)) for _ in range(n)]), dtype='boolean')
+    if key == 'str':
+        return pd.array(_strs(rng, n), dtype='str')
+    if key == 'str_none':
+        return pd.array(_holes(rng, _strs(rng, n)), dtype='str')
+    if key == 'string':
+        return pd.array(_holes(rng, _strs(rng, n)), dtype='string')
+    if key in ('cat', 'cat_ord'):
+        cats = ['lo', 'mid', 'hi', 'unused', 'Z', 'a']
+        rng.shuffle(cats)
+        cats = cats[:4]
+        vals = [rng.choice(cats[:3]) for _ in range(n)]
+        if key == 'cat' and col:
+            vals = _holes(rng, vals)
+        return pd.Categorical(vals, categories=cats, ordered=(key == 'cat_ord'))
+    if key == 'period':
+        return pd.period_range(rng.choice(['1999-11', '2020-01', '1969-12']), periods=n, freq=rng.choice(['M', 'D']))
+    raise ValueError(key)
+
+
+# dtype families of a non-geometry column that the unmodified round trip returns with identical
+# dtype and values on both paths
+COL_DTYPES = ['dt_ns', 'dt_ns_nat', 'dt_tz', 'dt_us', 'dt_ms', 'td_ns', 'td_us', 'bool',
+              'int8', 'int16', 'int32', 'int64', 'uint8', 'uint16', 'uint32', 'uint64',
+              'float16', 'float32', 'float64', 'Int64', 'UInt8', 'Int16', 'Float64', 'boolean',
+              'str', 'str_none', 'string', 'cat', 'cat_ord', 'period']
+# the same for an index (values; the width of an integer index is pandas' / Dask's business)
+INDEX_DTYPES = ['dt_ns', 'dt_tz', 'dt_us', 'dt_ms', 'td_ns', 'td_us', 'int8', 'int32', 'int64',
+                'uint8', 'uint32', 'uint64', 'float32', 'float64', 'str', 'cat_ord', 'bool']
+
+
+def exact_item(x):
+    """one value of a non-geometry column / an index as an exact, comparable token: integers as
+    Python ints, floats by their binary64 bit pattern (so -0.0 != 0.0; every NaN alike), times as
+    integer nanoseconds (+ time zone), missing as None"""
+    import pandas as pd
+    if x is None or x is pd.NA or x is pd.NaT:
+        return None
+    if isinstance(x, (bool, np.bool_)):
+        return ('b', bool(x))
+    if isinstance(x, (int, np.integer)):
+        return ('i', int(x))
+    if isinstance(x, (float, np.floating)):
+        x = float(x)
+        return ('f', 'nan') if x != x else ('f', x.hex())
+    if isinstance(x, pd.Timestamp):
+        return ('t', int(x.value), None if x.tz is None else str(x.tz))
+    if isinstance(x, pd.Timedelta):
+        return ('d', int(x.value))
+    if isinstance(x, pd.Period):
+        return ('p', int(x.ordinal), x.freqstr)
+    if isinstance(x, np.datetime64):
+        return exact_item(pd.Timestamp(x))
+    if isinstance(x, np.timedelta64):
+        return exact_item(pd.Timedelta(x))
+    if isinstance(x, str):
+        return ('s', x)
+    if isinstance(x, bytes):
+        return ('y', x)
+    if isinstance(x, tuple):
+        return tuple(exact_item(v) for v in x)
+    return ('o', repr(x))
+
+
+def exact_list(values):
+    """tokens of all values; in a column that is not a float column NaN is pandas' missing marker"""
+    dt = getattr(values, 'dtype', None)
+    isfloat = isinstance(dt, np.dtype) and dt.kind == 'f'
+    out = [exact_item(x) for x in list(values)]
+    if not isfloat:
+        out = [None if t == ('f', 'nan') else t for t in out]
+    return out
+
+
+def dtype_token(dt):
+    """str(dtype), plus the categories and the ordered flag of a categorical"""
+    import pandas as pd
+    if isinstance(dt, pd.CategoricalDtype):
+        return ('category', exact_list(dt.categories), bool(dt.ordered))
+    return str(dt)
